@@ -192,7 +192,8 @@ pub fn leaf_type(ctx: &Ctx, l: Leaf) -> DataType {
 
 fn child_field(ctx: &Ctx, name: &str, p: &Profile, depth: u32) -> Field {
     let dt = gen_type(ctx, p, depth);
-    let nullable = dt == DataType::Null || !ctx.chance(1, 4, "nonnull") || p.all_nullable;
+    // a union has no validity of its own: its nulls are its children's, so it is always declared nullable
+    let nullable = dt == DataType::Null || !ctx.chance(1, 4, "nonnull") || p.all_nullable || matches!(dt, DataType::Union(_, _));
     Field::new(name, dt, nullable)
 }
 
